@@ -2,65 +2,124 @@
 
 from __future__ import annotations
 
-from .rules import raises as R
+from .contexts import Merged
+from .rules import eq as E
 from .rules import purity as P
+from .rules import raises as R
+from .rules import reflect as RF
+from .rules import shape as SH
+from .rules import sig as SG
 
 COMMON_ASSUMPTIONS = [
     "Python semantics on JSON-like operands as tabulated in vstatic/pymodel.py (NaN and >64-bit numbers excluded, as in the properties)",
     "closed world: only code under /repo/valida mutates or subclasses valida objects; no monkey-patching",
     "field-type hints of vstatic/hints.py (each verified to name an existing class field on every run)",
-    "abstract interpretation is path-insensitive except for isinstance / None / emptiness / constant-flag narrowing and the is_concrete case split",
+    "abstract interpretation is path-insensitive except for isinstance / None / emptiness / membership / constant-flag narrowing and the is_concrete case split",
 ]
-
-
-def c07_rules():
-    def r_validate(ctx):
-        return R.raise_rule("R-RAISE/C07:Schema.validate", R.validate_merged(ctx), R.EXEMPT, floor=20,
-                            what="Schema.validate")
-
-    def r_rule_test(ctx):
-        return R.raise_rule("R-RAISE/C07:Rule.test", R.rule_test_merged(ctx), R.EXEMPT, floor=20,
-                            what="Rule.test")
-    return [r_validate, r_rule_test]
-
+SHAPE_ASSUMPTION = "recognised-form rules decide only expressions inside their vocabulary; anything else is reported as undecided in this file and is not a violation"
 
 ALL_ROOTS = {"schema", "data", "rule", "cond", "source", "path", "part", "result"}
 
 
-def c08_rules():
-    def r_pure(ctx):
-        merged, labels = P.pure_jobs(ctx)
-        return P.mutation_rule("R-PURE/C08", [(l, merged[l]) for l in labels], ALL_ROOTS,
-                               "the read entry point was called (an argument, self, or an object reachable from them)", floor=30)
+def _merge(jobs, keys):
+    m = Merged()
+    for k in keys:
+        for kk, vv in jobs[k].raises.items():
+            if kk not in m.raises or (vv[1] and not m.raises[kk][1]):
+                m.raises[kk] = vv
+        for ek, ev in jobs[k].events.items():
+            m.events.setdefault(ek, ev)
+        m.cases += [f"{k}:{c}" for c in jobs[k].cases]
+        m.contexts += jobs[k].contexts
+        m.functions |= jobs[k].functions
+    return m
 
-    def r_escape(ctx):
-        merged, labels = P.pure_jobs(ctx)
-        return P.escape_rule("R-ESCAPE/C08", [(l, merged[l]) for l in labels], "PRIV", ALL_ROOTS, "used for casts", floor=1)
-    return [P.rule_newinit, r_pure, r_escape]
+
+# -- C01 -----------------------------------------------------------------------------------
+def r_raise_c01(ctx):
+    return R.raise_rule("R-RAISE/C01", _merge(R._c01_jobs(ctx), ("filter", "test_all", "data_filter")), R.EXEMPT, floor=40,
+                        what="ConditionLike.filter / test_all / Data.filter")
 
 
-def c16_rules():
-    def r_pure(ctx):
-        merged, labels = P.parse_jobs(ctx)
-        return P.mutation_rule("R-PURE/C16", [(l, merged[l]) for l in labels], {"spec"},
-                               "the parser was called (its spec argument or anything reachable from it)", floor=10)
-    return [r_pure]
+# -- C02 -----------------------------------------------------------------------------------
+def r_pure_c02(ctx):
+    merged, labels = P.op_jobs(ctx)
+    return P.mutation_rule("R-PURE/C02", [(l, merged[l]) for l in labels], {"a", "b"},
+                           "the combination was built / inspected (an operand, or an object reachable from it)", floor=1)
+
+
+# -- C03 -----------------------------------------------------------------------------------
+def r_raise_c03(ctx):
+    return R.raise_rule("R-RAISE/C03", _merge(R._c01_jobs(ctx), ("get_data", "data_get")), R.EXEMPT, floor=40,
+                        what="DataPath.get_data / Data.get")
+
+
+# -- C07 -----------------------------------------------------------------------------------
+def r_raise_c07_validate(ctx):
+    return R.raise_rule("R-RAISE/C07:Schema.validate", R.validate_merged(ctx), R.EXEMPT, floor=20, what="Schema.validate")
+
+
+def r_raise_c07_rule_test(ctx):
+    return R.raise_rule("R-RAISE/C07:Rule.test", R.rule_test_merged(ctx), R.EXEMPT, floor=20, what="Rule.test")
+
+
+# -- C08 -----------------------------------------------------------------------------------
+def r_pure_c08(ctx):
+    merged, labels = P.pure_jobs(ctx)
+    return P.mutation_rule("R-PURE/C08", [(l, merged[l]) for l in labels], ALL_ROOTS,
+                           "the read entry point was called (an argument, self, or an object reachable from them)", floor=30)
+
+
+def r_escape_c08(ctx):
+    merged, labels = P.pure_jobs(ctx)
+    return P.escape_rule("R-ESCAPE/C08", [(l, merged[l]) for l in labels], "PRIV", ALL_ROOTS, "used for casts", floor=1)
+
+
+# -- C16 -----------------------------------------------------------------------------------
+def r_pure_c16(ctx):
+    merged, labels = P.parse_jobs(ctx)
+    return P.mutation_rule("R-PURE/C16", [(l, merged[l]) for l in labels], {"spec"},
+                           "the parser was called (its spec argument or anything reachable from it)", floor=10)
 
 
 PROPERTIES = {
-    "C16": dict(
-        rules=c16_rules(),
+    "C01": dict(
+        rules=[r_raise_c01, SH.rule_once_c01, SH.rule_tt_c01, SG.rule_sig, SH.rule_ops, SH.rule_preproc],
         explanation=(
-            "Ownership / mutation analysis of the ten parse entry points (ConditionLike/DataPath/ContainerValue/Rule/Schema from_spec, "
-            "from_json_like, from_part_specs, init_rules) with the spec argument as protected origin: every store / mutating call reachable "
-            "from them must target a fresh object (a copy), never the caller's spec structure or anything reachable from it. "
-            "Decides 'parsing does not change the spec' for all specs; equality of two parses then rests on C14 and on the absence of "
-            "module-level mutable state (none is written: listed in the evidence)."
+            "Clauses decided: (1) error containment of the per-item loop - every operation the 32 comparison functions, the pre-processors and "
+            "argument resolution apply to an item may only raise what the handlers in Condition._filter cover (exception-effect analysis); "
+            "(2) each per-item flag list is appended to exactly once on every path through the item loop, which visits every key/value; "
+            "(3) the result formula is `not (pre-processor error or callable error or callable false)` by truth-table evaluation, and the data / keys / "
+            "failure_indices views are the partition induced by it; (4) every DSL constructor binds the comparison function of its own name with the "
+            "same parameters; (5) each comparison function's return expression normalises to its documented meaning; (6) label / datum kind / "
+            "pre-processor agree for the 7 condition classes.  Not decided: the truth value Python computes for a particular item/argument pair."
+        ),
+        assumptions=COMMON_ASSUMPTIONS + [SHAPE_ASSUMPTION],
+    ),
+    "C02": dict(
+        rules=[P.rule_newinit, r_pure_c02, SH.rule_chain, SH.rule_tt_c02, SH.rule_partand],
+        explanation=(
+            "Clauses decided: (1) no operand is re-initialised by a constructor that __new__ short-circuited; (2) building a combination with & | ^ "
+            "and inspecting it (flatten / is_like / is_null) performs no store into an operand (mutation analysis); (3) for and / or / xor the spec key, "
+            "class, operator dunder, FLATTEN_SYMBOL, operator.* passed by _filter, FilteredData class and its operator agree, children filter the same "
+            "data and results are combined element-wise; (4) the null check returns the other operand for every is_null combination (truth table) and only "
+            "the NullCondition class counts as null; spec lists are folded over every element; (5) path parts and-combine their conditions.  "
+            "Not decided: that a particular tree's booleans equal the Boolean combination for every document (follows from (3) and C01 under the trusted model)."
+        ),
+        assumptions=COMMON_ASSUMPTIONS + [SHAPE_ASSUMPTION],
+    ),
+    "C07": dict(
+        rules=[r_raise_c07_validate, r_raise_c07_rule_test],
+        explanation=(
+            "Static exception-effect analysis (abstract interpretation over types x origins x taint) of every function reachable "
+            "from Schema.validate and Rule.test with the document as tainted input of unknown JSON type: every operation applied to a "
+            "document-derived value and every explicit raise control-dependent on one is an obligation; it must be covered by a handler "
+            "on every analysed call path.  Decides error containment structurally for all documents; it does not decide verdict values."
         ),
         assumptions=COMMON_ASSUMPTIONS,
     ),
     "C08": dict(
-        rules=c08_rules(),
+        rules=[P.rule_newinit, r_pure_c08, r_escape_c08],
         explanation=(
             "Ownership / mutation analysis (abstract interpretation over origins) of every function reachable from the read entry points "
             "(filter / test / test_all / Data.filter / Data.get / DataPath.get_data / part filters / Rule.test / Schema.validate and every "
@@ -71,18 +130,61 @@ PROPERTIES = {
         ),
         assumptions=COMMON_ASSUMPTIONS + ["callees unknown to the analyser are assumed not to mutate their arguments (counted as 'unmodelled' events in the evidence)"],
     ),
-    "C07": dict(
-        rules=c07_rules(),
+    "C09": dict(
+        rules=[SG.rule_sig, SG.rule_tables_c09, SG.rule_ladder, RF.rule_reflect, SG.rule_tokens, SH.rule_tt_c02],
         explanation=(
-            "Static exception-effect analysis (abstract interpretation over types x origins x taint) of every function reachable "
-            "from Schema.validate and Rule.test with the document as tainted input of unknown JSON type: every operation applied to a "
-            "document-derived value and every explicit raise control-dependent on one is an obligation; it must be covered by a handler "
-            "on every analysed call path.  Decides error containment structurally for all documents; it does not decide verdict values."
+            "Clauses decided: every DSL constructor is reachable from a spec and means the same comparison - (1) constructor <-> callable name, parameters, "
+            "kinds, storage and reachability after lower-casing (R-SIG); (2) alias / pre-processor / type-name / operator / datum tables are closed and consistent "
+            "(R-TABLE); (3) the argument-dispatch ladder, evaluated for each of the constructor signatures, takes exactly one branch whose call binds every "
+            "parameter (R-LADDER); (4) names a spec can reach by reflection are exactly DSL names (R-REFLECT); (5) every key token is accounted for on each "
+            "accepting branch (R-TOKENS); (6) and/or/xor lists are folded over every element.  Not decided: equality of the parsed object with the DSL-built one and identical filtering for every term."
+        ),
+        assumptions=COMMON_ASSUMPTIONS + [SHAPE_ASSUMPTION],
+    ),
+    "C11": dict(
+        rules=[SG.rule_sig, SG.rule_ladder, SG.rule_tables_c11, SG.rule_conv],
+        explanation=(
+            "Clauses decided: (1) every constructor stores its arguments the way the serialiser reads them (keyword / *args / **kwargs); (2) writer and reader "
+            "ladders, evaluated for all constructor signatures, pick branches with compatible JSON shapes; (3) type-name tables are mutual inverses; "
+            "(4) every conversion the reader applies (type names for dtype / is_instance / keys_is_instance, scalar and list; data-path mappings) has an inverse in the writer; "
+            "combinations serialise both children under their own symbol.  Not decided: equality / identical filtering of the rebuilt condition for all terms."
+        ),
+        assumptions=COMMON_ASSUMPTIONS + [SHAPE_ASSUMPTION],
+    ),
+    "C14": dict(
+        rules=[E.rule_eqstate, E.rule_eq_pure],
+        explanation=(
+            "For each of the 18 classes with value equality: the MRO-resolved __eq__ reads every instance field of the class on both operands (following "
+            "super().__eq__, _members() and property getters), compares exact types symmetrically before touching the other operand, combination equality "
+            "is invariant under swapping the children, and no __eq__ stores into its operands (mutation analysis).  Exempt: Rule.doc.  "
+            "Not decided: transitivity over argument values with exotic ==, and multiset-versus-set semantics of unrecognised comparison forms (reported as undecided)."
+        ),
+        assumptions=COMMON_ASSUMPTIONS + [SHAPE_ASSUMPTION],
+    ),
+    "C16": dict(
+        rules=[r_pure_c16],
+        explanation=(
+            "Ownership / mutation analysis of the ten parse entry points (ConditionLike/DataPath/ContainerValue/Rule/Schema from_spec, "
+            "from_json_like, from_part_specs, init_rules) with the spec argument as protected origin: every store / mutating call reachable "
+            "from them must target a fresh object (a copy), never the caller's spec structure or anything reachable from it. "
+            "Decides 'parsing does not change the spec' for all specs; equality of two parses then rests on C14 and on the absence of "
+            "module-level mutable state."
+        ),
+        assumptions=COMMON_ASSUMPTIONS,
+    ),
+    "C19": dict(
+        rules=[RF.rule_reflect, R.rule_c19_raises, P.rule_newinit, SG.rule_tokens],
+        explanation=(
+            "Exception-effect analysis of the ten parse entry points with the spec as tainted input of unknown JSON type: every operation on a "
+            "spec-derived value (attribute / method access, subscripts, next(iter()), unpacking, table lookups keyed by spec tokens) and every "
+            "explicit raise is an obligation; what can escape a parser must be a Malformed* error, TypeError, ValueError or a KeyError naming a "
+            "mandatory rule field - never AttributeError / IndexError / StopIteration / RuntimeError / RecursionError.  Reflection on spec tokens "
+            "must be bounded by a constant table whose entries are all DSL names (R-REFLECT); __init__ must not re-initialise an operand (R-NEWINIT: "
+            "the RecursionError route); the operator branch must match the whole key (R-TOKENS).  The 'definite errors are rejected' half is decided only for unknown / surplus tokens; arity errors are left to Python's call protocol."
         ),
         assumptions=COMMON_ASSUMPTIONS,
     ),
 }
-
 
 NOT_APPLICABLE = {
     "C10": "equality and identical behaviour of two construction routes over an unbounded spec-term space x YAML text x documents: "
@@ -90,18 +192,19 @@ NOT_APPLICABLE = {
            "fire on behaviour-preserving rewrites (DESIGN.md section 7). Its structural by-products are decided under C16/C19/C13/C09/C17.",
 }
 
+_AI = "static analysis by abstract interpretation (types x origins x taint) over the resolved call graph"
 MANIFEST_TEXT = {
-    "C16": dict(
-        level="Effect analysis: no store or mutating call reachable from any parse entry point targets the caller's spec or anything reachable from it - for every spec and every number of repeated parses. "
-              "Decides the non-mutation clause completely; 're-parsing gives an equal object' follows from it plus determinism (no global state) and C14.",
-        note="trusts the builtin effect table (pop/update/append/... mutate; dict()/list()/deepcopy copy) and the closed-world assumption",
-        technique="static ownership / mutation (effect) analysis by abstract interpretation over origin labels",
+    "C01": dict(
+        level="Decides six structural clauses, each a necessary condition of the property, for all conditions and documents at once: error containment of the item loop, one flag set per item, "
+              "result formula and partition views, constructor<->callable binding, documented meaning of each comparison (normal-form oracle), pre-processor table. Does not decide run-time truth values.",
+        note="trusts the operator->exception table, the 32-entry meaning oracle in vstatic/rules/shape.py (the documented meaning of each comparison) and the closed-world assumption",
+        technique=_AI + " for error containment; AST normal-form / truth-table / signature-agreement rules for the rest",
     ),
-    "C08": dict(
-        level="Effect analysis over all read entry points: no store or mutating call reachable from them targets a pre-existing object, for every input and every call history "
-              "(absence of writes to shared objects makes results independent of history and interleaving). This is the property itself under the closed-world assumption.",
-        note="trusts the builtin effect table (which builtin methods mutate / copy), the field-type hints and the closed-world assumption; Data.extract_paths is analysed only under the internal flag values the package itself passes",
-        technique="static ownership / mutation (effect) analysis by abstract interpretation over origin labels, plus a syntactic __new__/__init__ guard rule",
+    "C02": dict(
+        level="Decides: operands are never re-initialised or stored into by building / inspecting a combination; the and/or/xor operator chain is consistent end to end; null identity by truth table. "
+              "The Boolean value of a particular tree on a particular document is not decided.",
+        note="trusts the builtin effect table and the closed-world assumption",
+        technique="static mutation analysis (abstract interpretation over origins) + sibling-agreement and truth-table rules on the AST",
     ),
     "C07": dict(
         level="Sound-by-construction over-approximation, for all documents at once, of the exceptions that can escape Schema.validate / Rule.test "
@@ -109,5 +212,41 @@ MANIFEST_TEXT = {
               "Decides error containment (the property itself, under the stated Python model); says nothing about verdict values.",
         note="trusts the operator->exception table for JSON-like operands, the closed-world assumption and 6 named exemptions each tied to a quantifier clause or to another rule",
         technique="static exception-effect analysis by abstract interpretation (types x taint) over the resolved call graph",
+    ),
+    "C08": dict(
+        level="Effect analysis over all read entry points: no store or mutating call reachable from them targets a pre-existing object, for every input and every call history "
+              "(absence of writes to shared objects makes results independent of history and interleaving). This is the property itself under the closed-world assumption.",
+        note="trusts the builtin effect table (which builtin methods mutate / copy), the field-type hints and the closed-world assumption; Data.extract_paths is analysed only under the internal flag values the package itself passes",
+        technique="static ownership / mutation (effect) analysis by abstract interpretation over origin labels, plus a syntactic __new__/__init__ guard rule",
+    ),
+    "C09": dict(
+        level="Decides reachability and binding of every DSL constructor from specs (signatures, tables, dispatch ladder evaluated for each signature, reflection whitelists, token accounting). "
+              "Equality of parsed and DSL-built objects on all terms is not decided.",
+        note="trusts finite evaluation of the constant tables and ladder tests by the analyser's own evaluator",
+        technique="signature / table / dispatch-ladder agreement by finite evaluation of constant expressions over the program model",
+    ),
+    "C11": dict(
+        level="Decides agreement of the serialiser with the parser on storage convention, JSON shape per signature, type-name tables and converters. One known finding (F13: no writer for data-path arguments) is listed. "
+              "Round-trip equality on all terms is not decided.",
+        note="trusts finite evaluation of ladder tests and tables; F13 is recorded in known_findings.json",
+        technique="reader/writer agreement by finite evaluation of dispatch ladders and constant tables",
+    ),
+    "C14": dict(
+        level="Decides that every __eq__ compares all state on both sides with an exact symmetric type test first, that combination equality is swap-invariant, and that equality is pure. "
+              "Necessary for 'equal implies identical behaviour'; transitivity with exotic argument values is not decided.",
+        note="trusts the field enumeration of the program model (every `self.X = ...` in the class and its bases)",
+        technique="set comparison of fields read by __eq__ (MRO-resolved, following helper methods) against instance state + mutation analysis of __eq__",
+    ),
+    "C16": dict(
+        level="Effect analysis: no store or mutating call reachable from any parse entry point targets the caller's spec or anything reachable from it - for every spec and every number of repeated parses. "
+              "Decides the non-mutation clause completely; 're-parsing gives an equal object' follows from it plus determinism (no global state) and C14.",
+        note="trusts the builtin effect table (pop/update/append/... mutate; dict()/list()/deepcopy copy) and the closed-world assumption",
+        technique="static ownership / mutation (effect) analysis by abstract interpretation over origin labels",
+    ),
+    "C19": dict(
+        level="Over-approximation, for every spec structure at once, of the exception classes that can escape the parsers; plus whitelisting of all spec-driven reflection. "
+              "Decides the 'never an internal error' half and the 'unknown / surplus names are rejected' part of the other half; does not decide that every definite arity/shape error is rejected.",
+        note="trusts the operator->exception table for JSON-like operands (access kinds not in the table are not checked), and the finite evaluation of the constant whitelisting tables",
+        technique="static exception-effect analysis with spec taint (abstract interpretation) + reflection whitelisting by constant-table evaluation",
     ),
 }
